@@ -38,7 +38,7 @@ def run(tier, rep):
         sfs, extra = lr.spec_files(sc, specK=3)
         parts = [('harnessC17Hash', WATCH_HASH, 3 if thorough else 2, False,
                   'hashStrings on two goroutines: every schedule with <= %d context switches at calls/loads/stores inside hashStrings and hash/fnv'),
-                 ('harnessC17Parse', WATCH_OWN, 2 if thorough else 1, False,
+                 ('harnessC17Parse', WATCH_OWN, 1, False,  # two switches over the whole package did not finish within an hour
                   'spec.Parse of two specifications on two goroutines: every schedule with <= %d context switches at calls/loads/stores inside emerge\'s own spec package (library calls atomic)'),
                  ('harnessC17Parse', WATCH_PARSE, 1, True,
                   'the same with the hashers of the library preemptible too (<= %d context switch inside hash/fnv, hashStrings, eqStrings, SymbolTable.Get*)')]
